@@ -56,6 +56,23 @@ def post(prog, r, tier, prof):
             out.append({"s": s, "op": "store", "uid": False, "set": {"raw": "*"}, "how": "+", "flags": ["\\Deleted", "\\Flagged"], "silent": False})
             out.append({"s": s, "op": "expunge"})
         out.append(op)
+    if prog["mode"] == "sequential" and r.random() < 0.12 and len(prof["mailboxes"]) > 1:
+        # a mailbox with flagged messages is deleted while it has a child (the folder stays as a placeholder), an MH
+        # agent delivers into the folder, the mailbox is created again: the new mail has the agent's flags only
+        s = prog["sessions"][0]["id"]
+        mb = prof["mailboxes"][1]
+        out += [
+            {"s": s, "op": "create", "name": mb + "/kid"},
+            {"s": s, "op": "select", "mbox": mb, "examine": False},
+            {"s": s, "op": "store", "uid": False, "set": {"all": True}, "how": "+", "flags": ["\\Answered", "\\Flagged", r.choice(("\\Seen", "kw1"))], "silent": True},
+            {"s": s, "op": "close"},
+            {"s": s, "op": "delete", "name": mb},
+            {"actor": "agent", "op": "deliver", "mbox": mb, "count": r.choice((1, 2)), "unseen": True, "split": False},
+            {"s": s, "op": "create", "name": mb},
+            {"s": s, "op": "select", "mbox": mb, "examine": False},
+            {"s": s, "op": "fetch", "uid": False, "set": {"all": True}, "items": "(UID FLAGS)"},
+            {"s": s, "op": "noop"},
+        ]
     prog["ops"] = out
     if prog["mode"] == "concurrent":
         for op in prog["ops"]:
